@@ -53,4 +53,11 @@ def instances(tier):
     for fmt in (1, 2, 3):
         for ns, aln in widths[fmt]:
             out.append(write_inst(fmt, ns, aln, (1, 2, 3) if ns == 3 else (2, 1, 1)))
+    # MSF header line at the edge of its 256-byte buffer (needed length = size-1, size, size+1)
+    for delta in (-1, 0, 1):
+        i = write_inst(2, 2, 3, (2, 1, 1))
+        i.name += "_trunc%+d" % delta
+        i.defs = dict(i.defs, VK_TRUNC_DELTA=delta)
+        i.bound += "; header line needing buffer size %+d characters" % delta
+        out.append(i)
     return out
